@@ -46,6 +46,14 @@ def configs(tier, lmax=5, singles=True, bases=True, shapes=None, geoms=None):
                 ta, tb = al.type_patterns(2)[(la + 2 * lb + cs) % 4]
                 out.append({"kind": "pair", "la": la, "lb": lb, "ta": ta, "tb": tb, "geom": "generic",
                             "shape": list(shapes[(la + lb + cs) % len(shapes)]), "ic": None, "cs": cs})
+    # size ladder: the largest shell pairs of the quantifier (4 primitives, 3 segmented contractions on both shells
+    # of the highest angular momenta) - the blocks and temporaries where an alternative code path for "large" pairs
+    # would be taken
+    for la in range(max(0, lmax - 1), lmax + 1):
+        for lb in range(max(0, lmax - 1), lmax + 1):
+            ta, tb = al.type_patterns(2)[(la + 2 * lb) % 4]
+            out.append({"kind": "pair", "la": la, "lb": lb, "ta": ta, "tb": tb, "geom": "generic",
+                        "shape": [4, 3, 0, 4, 3, 1], "ic": None})
     # aliasing class: two shells of (in general) different angular momentum built on the SAME exponent and
     # coefficient array objects
     for la in range(lmax + 1):
